@@ -14,22 +14,18 @@
 
   The monthly arrays are arbitrary (not only those that come from a profile).
 
-  DESIGN.md C06(1) `month_energy` as designed —
-      "for all monthly arrays with dur_cl + dur_hl < 24·monthdays i:
-       monthIntegral i = cl_i − hl_i + δ·rate_i·a_i,  a_i = number of retained zero-peak directions"
-  — is FALSE of the code in two ways (both reproduced on the real implementation, see
-  harness/c06.py and known_findings.txt):
-    (a) both pulses on one day and a duration longer than twice the noon hour (only possible on
-        1 January, duration > 26 h): `first_hour_*_peak` is clamped to 1e-6 and the two pulses
-        no longer abut  → `month_energy_fails_when_clamped`;
-    (b) a direction with zero monthly peak does not always get the placeholder duration δ:
-        `find_peak_durations` replaces the zero peak by the two-day maximum, which contains the
-        last day of the previous month → `zero_peak_direction_gets_real_duration`; the duration
-        is subtracted from the averaging period although no pulse is emitted.
-  What is proved instead: the exact identity with `rate · zeroPeakDur` for every record that
-  satisfies `MonthOK` (`month_energy_partial`), exactness when nothing is lost
-  (`month_energy_exact`), and the δ-bound under the placeholder hypothesis
-  (`month_energy_placeholder_bound`).
+  DESIGN.md C06(1) `month_energy`: "for all monthly arrays with room in the month the month's
+  entries integrate to cl_i − hl_i (+ δ·rate·a_i)".  On the repaired tree (fix 53c648d: only the
+  durations of emitted pulses are subtracted from the averaging period) the δ term is gone and the
+  identity is exact — but it still needs one hypothesis the design did not have (`MonthOK.noclamp`):
+  when both pulses fall on the same day and a duration exceeds twice the noon hour (only possible on
+  1 January, duration > 26 h) `first_hour_*_peak` is clamped to 1e-6 and the two pulses no longer
+  abut.  `month_energy_fails_when_clamped` proves the unconditional statement false on a witness
+  (reproduced on the real implementation by harness/c06.py, known finding same-day-pulse-clamped);
+  `month_energy` is the full-strength statement for every month whose two pulses are on different
+  days or that has at most one pulse; `month_energy_partial` covers the shared-day case under the
+  no-clamp hypothesis.  The fixed defect (zero-peak direction with a real duration) is kept as the
+  regression `zero_peak_month_conserved`.
 -/
 import GHEVerif.Lemmas.HybridEnergy
 import Mathlib.Tactic.NormNum
@@ -40,56 +36,33 @@ open GHEVerif GHEVerif.Hybrid
 
 /-! ### (1) one month -/
 
-/-- Month energy, general identity.  For every year `y`, simulated month `i ≥ 1`, retention flag
-    and month record with non-negative peaks and durations, a non-empty averaging period and (only
-    when both pulses fall on the same day) unclamped pulse starts: the month's entries exist, end at
-    `last_month_hour i`, and their signed integral from `last_month_hour (i-1)` is
-    `cl − hl + rate · (durations of retained directions that have no pulse)`. -/
+/-- Month energy, full strength, for every month that does not have both pulses on one day: for
+    every year `y`, simulated month `i ≥ 1`, retention flag and month record with non-negative peaks
+    and durations and a non-empty averaging period, the month's entries exist, end at
+    `last_month_hour i`, and their signed integral from `last_month_hour (i-1)` is exactly `cl − hl`. -/
+theorem month_energy (y : Int) (r : MonthRec) (ipf : Bool) (i : Int) (hi : 1 ≤ i)
+    (hp : 0 ≤ r.pcl ∧ 0 ≤ r.phl) (hd : 0 ≤ r.dcl ∧ 0 ≤ r.dhl)
+    (hroom : ipf = true → pulseHours r ≠ 24 * (mdays y i : Rat))
+    (hdays : r.dayc ≠ r.dayh ∨ r.pcl = 0 ∨ r.phl = 0) :
+    ∃ segs, emitMonth y r ipf i = .ok segs ∧
+      integral (lmh y (i - 1) : Int) segs = r.cl - r.hl ∧
+      lastHour (lmh y (i - 1) : Int) segs = (lmh y i : Int) := by
+  apply month_energy_ok y r ipf i hi
+  refine ⟨hp, hd, hroom, ?_⟩
+  intro _ hsame hc hh
+  rcases hdays with h | h | h
+  · exact absurd hsame h
+  · rw [h] at hc; exact absurd hc (lt_irrefl _)
+  · rw [h] at hh; exact absurd hh (lt_irrefl _)
+
+/-- Month energy when both pulses share the day: exact as well, provided neither pulse start is
+    clamped (`MonthOK.noclamp`: `dur ≤ 2·noon`). -/
 theorem month_energy_partial (y : Int) (r : MonthRec) (ipf : Bool) (i : Int) (hi : 1 ≤ i)
     (h : MonthOK y r ipf i) :
     ∃ segs, emitMonth y r ipf i = .ok segs ∧
-      integral (lmh y (i - 1) : Int) segs
-        = r.cl - r.hl + (if ipf = true then rateOf y r ipf i * zeroPeakDur r else 0) ∧
+      integral (lmh y (i - 1) : Int) segs = r.cl - r.hl ∧
       lastHour (lmh y (i - 1) : Int) segs = (lmh y i : Int) :=
   month_energy_ok y r ipf i hi h
-
-/-- Exact conservation whenever no duration is lost: outside the retention months, or when both
-    peaks exist. -/
-theorem month_energy_exact (y : Int) (r : MonthRec) (ipf : Bool) (i : Int) (hi : 1 ≤ i)
-    (h : MonthOK y r ipf i) (hx : ipf = false ∨ (0 < r.pcl ∧ 0 < r.phl)) :
-    ∃ segs, emitMonth y r ipf i = .ok segs ∧
-      integral (lmh y (i - 1) : Int) segs = r.cl - r.hl := by
-  obtain ⟨segs, e1, e2, _⟩ := month_energy_ok y r ipf i hi h
-  refine ⟨segs, e1, ?_⟩
-  rw [e2]
-  rcases hx with hx | ⟨a, b⟩
-  · simp [corr, hx]
-  · simp [corr, zeroPeakDur, ne_of_gt a, ne_of_gt b]
-
-/-- With the placeholder duration `δ = 1e-6` on every zero-peak direction (what the design assumed),
-    the error is at most `2 δ |rate|`. -/
-theorem month_energy_placeholder_bound (y : Int) (r : MonthRec) (ipf : Bool) (i : Int) (hi : 1 ≤ i)
-    (h : MonthOK y r ipf i)
-    (hδc : r.pcl = 0 → r.dcl = Gen.hybridDelta) (hδh : r.phl = 0 → r.dhl = Gen.hybridDelta) :
-    ∃ segs, emitMonth y r ipf i = .ok segs ∧
-      |integral (lmh y (i - 1) : Int) segs - (r.cl - r.hl)| ≤ 2 * Gen.hybridDelta * |rateOf y r ipf i| := by
-  obtain ⟨segs, e1, e2, _⟩ := month_energy_ok y r ipf i hi h
-  refine ⟨segs, e1, ?_⟩
-  rw [e2, add_sub_cancel_left]
-  have hδ := delta_pos
-  unfold corr
-  split
-  · rw [abs_mul, mul_comm]
-    apply mul_le_mul_of_nonneg_right _ (abs_nonneg _)
-    unfold zeroPeakDur
-    by_cases a : r.pcl = 0 <;> by_cases b : r.phl = 0 <;>
-      simp only [a, b, if_true, if_false, hδc, hδh, add_zero, zero_add, abs_zero] <;>
-      first
-        | (rw [abs_of_pos (by linarith)]; linarith)
-        | linarith
-  · simp only [abs_zero]
-    have := abs_nonneg (rateOf y r ipf i)
-    nlinarith
 
 /-! ### the design's statement fails: witnesses -/
 
@@ -140,38 +113,29 @@ theorem zero_peak_direction_gets_real_duration :
 /-- February after such a month: no rejection (peak 0) but a 24 h rejection duration. -/
 def wZeroPeak : MonthRec := { cl := 0, hl := 3364, pcl := 0, phl := 9, dayc := 0, dayh := 4, dcl := 24, dhl := 1 }
 
-/-- … and then the month's energy is off by `rate · 24 h`, far above the `2δ|rate|` the design allows. -/
-theorem month_energy_off_by_rate_times_duration :
-    MonthOK 2019 wZeroPeak true 2 ∧
+/-- Regression of the repaired defect (fix 53c648d): the month used to integrate to
+    `cl − hl + rate · 24 h` (−3488 instead of −3364 kWh on the implementation); the pulse-less
+    direction's duration is no longer subtracted from the averaging period and the month conserves
+    its energy exactly. -/
+theorem zero_peak_month_conserved :
     ∃ segs, emitMonth 2019 wZeroPeak true 2 = .ok segs ∧
-      integral (lmh 2019 (2 - 1) : Int) segs - (wZeroPeak.cl - wZeroPeak.hl) = rateOf 2019 wZeroPeak true 2 * 24 ∧
-      2 * Gen.hybridDelta * |rateOf 2019 wZeroPeak true 2| < |rateOf 2019 wZeroPeak true 2 * 24| := by
+      integral (lmh 2019 (2 - 1) : Int) segs = wZeroPeak.cl - wZeroPeak.hl := by
   have hm : mdays 2019 2 = 28 := by decide
-  have hok : MonthOK 2019 wZeroPeak true 2 := by
-    refine ⟨by simp [wZeroPeak], by simp [wZeroPeak], ?_, ?_⟩
-    · intro _; rw [hm]; simp only [wZeroPeak]; norm_num
-    · intro _ hd; simp [wZeroPeak] at hd
-  refine ⟨hok, ?_⟩
-  obtain ⟨segs, e1, e2, _⟩ := month_energy_ok 2019 wZeroPeak true 2 (by norm_num) hok
-  refine ⟨segs, e1, ?_, ?_⟩
-  · rw [e2]; simp [corr, zeroPeakDur, wZeroPeak]
-  · have hr : rateOf 2019 wZeroPeak true 2 = -3355 / 647 := by
-      unfold rateOf; rw [hm]
-      simp only [monthRate, pyDiv, wZeroPeak, if_true]
-      norm_num
-    rw [hr]; unfold Gen.hybridDelta; norm_num [abs_of_neg, abs_of_pos]
+  obtain ⟨segs, e1, e2, _⟩ := month_energy 2019 wZeroPeak true 2 (by norm_num) (by simp [wZeroPeak]) (by simp [wZeroPeak])
+    (by intro _; rw [hm]; simp only [pulseHours, wZeroPeak]; norm_num) (Or.inl (by simp [wZeroPeak]))
+  exact ⟨segs, e1, e2⟩
 
 /-! ### (2) the horizon -/
 
 /-- Total energy of the sequence: for every horizon `start ≤ … ≤ end_` (any number of months) whose
     months satisfy `MonthOK`, the sequence exists and its integral from hour 0 is the sum of the
-    months' net loads (year-1 values, replicated) plus the zero-peak corrections. -/
+    months' net loads (year-1 values, replicated). -/
 theorem horizon_energy_partial (y : Int) (base : List MonthRec) (hlen : base.length = 13)
     (start end_ : Int) (hs : 1 ≤ start) (hs' : start ≤ 13) (he : start - 1 ≤ end_)
     (hok : ∀ i, start ≤ i → i ≤ end_ → MonthOK y (recAt base i) (ipfFlag start end_ i) i) :
     ∃ seq, processMonthLoads y base start end_ = .ok seq ∧
       integral 0 seq = ((pyRange start (end_ + 1)).map (fun i =>
-        (recAt base i).cl - (recAt base i).hl + corr y (recAt base i) (ipfFlag start end_ i) i)).sum := by
+        (recAt base i).cl - (recAt base i).hl)).sum := by
   obtain ⟨seq, h1, _, h3, _⟩ := horizon_core y base hlen start end_ hs hs' he hok
   exact ⟨seq, h1, h3⟩
 
@@ -180,37 +144,15 @@ theorem recAt_monthIndex (base : List MonthRec) (i : Int) : recAt base (monthInd
   obtain ⟨a, b⟩ := monthIndex_range i
   rw [monthIndex_small _ a b]
 
-/-- `n` whole years from month 1: the total is `n ×` the annual net load plus the corrections. -/
+/-- `n` whole years from month 1 carry exactly `n ×` the annual net load. -/
 theorem horizon_energy_years_partial (y : Int) (base : List MonthRec) (hlen : base.length = 13) (n : Nat)
     (hok : ∀ i, 1 ≤ i → i ≤ 12 * (n : Int) → MonthOK y (recAt base i) (ipfFlag 1 (12 * n) i) i) :
     ∃ seq, processMonthLoads y base 1 (12 * n) = .ok seq ∧
-      integral 0 seq = (n : Rat) * ((pyRange 1 13).map (fun m => (recAt base m).cl - (recAt base m).hl)).sum
-        + ((pyRange 1 (12 * (n : Int) + 1)).map (fun i => corr y (recAt base i) (ipfFlag 1 (12 * n) i) i)).sum := by
+      integral 0 seq = (n : Rat) * ((pyRange 1 13).map (fun m => (recAt base m).cl - (recAt base m).hl)).sum := by
   obtain ⟨seq, h1, _, h3, _⟩ := horizon_core y base hlen 1 (12 * n) (le_refl _) (by norm_num) (by omega) hok
   refine ⟨seq, h1, ?_⟩
-  rw [h3, List.sum_map_add]
-  congr 1
+  rw [h3]
   exact sum_years (fun i => (recAt base i).cl - (recAt base i).hl) (fun i => by simp only [recAt_add12]) n
-
-/-- When every month of the year has both peaks, `n` years carry exactly `n ×` the annual net load. -/
-theorem horizon_energy_years_exact (y : Int) (base : List MonthRec) (hlen : base.length = 13) (n : Nat)
-    (hok : ∀ i, 1 ≤ i → i ≤ 12 * (n : Int) → MonthOK y (recAt base i) (ipfFlag 1 (12 * n) i) i)
-    (hpos : ∀ m, 1 ≤ m → m ≤ 12 → 0 < (recAt base m).pcl ∧ 0 < (recAt base m).phl) :
-    ∃ seq, processMonthLoads y base 1 (12 * n) = .ok seq ∧
-      integral 0 seq = (n : Rat) * ((pyRange 1 13).map (fun m => (recAt base m).cl - (recAt base m).hl)).sum := by
-  obtain ⟨seq, h1, h2⟩ := horizon_energy_years_partial y base hlen n hok
-  refine ⟨seq, h1, ?_⟩
-  rw [h2]
-  have : ((pyRange 1 (12 * (n : Int) + 1)).map (fun i => corr y (recAt base i) (ipfFlag 1 (12 * n) i) i)).sum = 0 := by
-    apply List.sum_eq_zero
-    intro x hx
-    rw [List.mem_map] at hx
-    obtain ⟨i, _, rfl⟩ := hx
-    obtain ⟨a, b⟩ := monthIndex_range i
-    obtain ⟨p1, p2⟩ := hpos (monthIndex i) a b
-    rw [recAt_monthIndex] at p1 p2
-    simp [corr, zeroPeakDur, ne_of_gt p1, ne_of_gt p2]
-  rw [this, add_zero]
 
 /-! ### (3) the monthly totals come from the profile -/
 
@@ -248,28 +190,21 @@ theorem split_totals (y : Int) (raw : List Rat) (stats : List MonthStat)
 
 /-- The F1 regression witness (heating-only, 1 kW base, 5 kW at hour 5 of the month: extraction
     peak on day 0 shared with an absent rejection peak).  Before the repair January integrated to
-    −800 kWh; now the record satisfies `MonthOK`, so the identity gives −748 kWh up to `rate·δ`. -/
+    −800 kWh; now the record meets the hypotheses of `month_energy`: exactly −748 kWh. -/
 def wF1 : MonthRec := { cl := 0, hl := 748, pcl := 0, phl := 5, dayc := 0, dayh := 0, dcl := Gen.hybridDelta, dhl := 1 }
 
-theorem wF1_ok : MonthOK 2019 wF1 true 1 := by
+example : ∃ segs, emitMonth 2019 wF1 true 1 = .ok segs ∧ integral (lmh 2019 (1 - 1) : Int) segs = -748 := by
   have hm : mdays 2019 1 = 31 := mdays_one 2019
-  refine ⟨by simp [wF1], ?_, ?_, ?_⟩
-  · simp only [wF1]; exact ⟨le_of_lt delta_pos, by norm_num⟩
-  · intro _; rw [hm]; simp only [wF1, Gen.hybridDelta]; norm_num
-  · intro _ _ hc; simp [wF1] at hc
-
-example : ∃ segs, emitMonth 2019 wF1 true 1 = .ok segs ∧
-    |integral (lmh 2019 (1 - 1) : Int) segs - (-748)| ≤ 2 * Gen.hybridDelta * |rateOf 2019 wF1 true 1| := by
-  obtain ⟨segs, e1, e2⟩ := month_energy_placeholder_bound 2019 wF1 true 1 (by norm_num) wF1_ok
-    (by intro _; rfl) (by intro h; simp [wF1] at h)
-  exact ⟨segs, e1, by simpa [wF1] using e2⟩
+  obtain ⟨segs, e1, e2, _⟩ := month_energy 2019 wF1 true 1 (by norm_num) (by simp [wF1])
+    (by simp only [wF1]; exact ⟨le_of_lt delta_pos, by norm_num⟩)
+    (by intro _; rw [hm]; simp only [pulseHours, wF1]; norm_num) (Or.inr (Or.inl rfl))
+  exact ⟨segs, e1, by rw [e2]; simp [wF1]⟩
 
 /-- The regression itself, evaluated: the entries of January are
-    average → noon, pulse −5 kW for 1 h, average → hour 744 (no pulse from hour 0). -/
-example : emitMonth 2019 wF1 true 1 =
-    .ok [((-743 : Rat) / (743 - Gen.hybridDelta), 13), (-5, 14), ((-743 : Rat) / (743 - Gen.hybridDelta), 744)] := by
+    average (−1 kW) → noon, pulse −5 kW for 1 h, average → hour 744 (no pulse from hour 0). -/
+example : emitMonth 2019 wF1 true 1 = .ok [(-1, 13), (-5, 14), (-1, 744)] := by
   have hm : mdays 2019 1 = 31 := mdays_one 2019
-  have hr : monthRate wF1 true (mdays 2019 1 * 24) = .ok ((-743 : Rat) / (743 - Gen.hybridDelta)) := by
+  have hr : monthRate wF1 true (mdays 2019 1 * 24) = .ok (-1) := by
     rw [hm]
     simp only [monthRate, pyDiv, wF1, Gen.hybridDelta, if_true]
     norm_num
@@ -286,14 +221,11 @@ def wBoth : MonthRec := { cl := 9000, hl := 1200, pcl := 180, phl := 60, dayc :=
 
 example : ∃ segs, emitMonth 2019 wBoth true 7 = .ok segs ∧ integral (lmh 2019 (7 - 1) : Int) segs = 7800 := by
   have hm : mdays 2019 7 = 31 := by decide
-  have hok : MonthOK 2019 wBoth true 7 := by
-    refine ⟨by simp [wBoth], by simp [wBoth], ?_, ?_⟩
-    · intro _; rw [hm]; simp only [wBoth]; norm_num
-    · intro _ hd; simp [wBoth] at hd
-  obtain ⟨segs, e1, e2⟩ := month_energy_exact 2019 wBoth true 7 (by norm_num) hok (Or.inr (by simp [wBoth]))
+  obtain ⟨segs, e1, e2, _⟩ := month_energy 2019 wBoth true 7 (by norm_num) (by simp [wBoth]) (by simp [wBoth])
+    (by intro _; rw [hm]; simp only [pulseHours, wBoth]; norm_num) (Or.inl (by simp [wBoth]))
   exact ⟨segs, e1, by rw [e2]; simp only [wBoth]; norm_num⟩
 
-/-- A whole-year base satisfying every hypothesis of `horizon_energy_years_exact` for 2 years. -/
+/-- A whole-year base satisfying every hypothesis of `horizon_energy_years_partial` for 2 years. -/
 def wBase : List MonthRec := MonthRec.null :: List.replicate 12 wBoth
 
 example : ∃ seq, processMonthLoads 2019 wBase 1 (12 * (2 : Nat)) = .ok seq ∧ integral 0 seq = 2 * (12 * 7800) := by
@@ -307,15 +239,14 @@ example : ∃ seq, processMonthLoads 2019 wBase 1 (12 * (2 : Nat)) = .ok seq ∧
     have : k ≤ 12 := by omega
     have : 1 ≤ k := by omega
     interval_cases k <;> rfl
-  obtain ⟨seq, h1, h2⟩ := horizon_energy_years_exact 2019 wBase rfl 2 (by
+  obtain ⟨seq, h1, h2⟩ := horizon_energy_years_partial 2019 wBase rfl 2 (by
       intro i i1 i2
       rw [hrec]
       have hmd := mdays_ge 2019 i
       have hmdR : (28 : Rat) ≤ (mdays 2019 i : Rat) := by exact_mod_cast hmd
       refine ⟨by simp [wBoth], by simp [wBoth], ?_, ?_⟩
-      · intro _; simp only [wBoth]; intro h; linarith
+      · intro _; simp only [pulseHours, wBoth]; intro h; norm_num at h; linarith
       · intro _ hd; simp [wBoth] at hd)
-    (by intro m _ _; rw [hrec]; simp [wBoth])
   refine ⟨seq, h1, ?_⟩
   rw [h2]
   simp only [hrec, wBoth]
